@@ -187,6 +187,10 @@ def run(ctx):
             fmt = string_lit(call_args(pc)[0]) or b''
             m = re.search(rb'%\.02f ([A-Z])B', fmt)
             div = None
+            num = None
+            if m is None and flag and any(c_.get('kind') == 'CallExpr' and call_name(c_) == 'format_size' and len(call_args(c_)) == 2 and nf(call_args(c_)[0]) == 'size' and int_value(call_args(c_)[1]) == 0 for c_ in walk(br)) and re.search(rb'^%zu bytes \(%s\)$', fmt):
+                rows[True] = 'delegates'
+                break
             for x in walk(pc):
                 if x.get('kind') == 'BinaryOperator' and x.get('opcode') == '/':
                     div = int_value(x['inner'][1])
@@ -195,6 +199,10 @@ def run(ctx):
             thr = int_value(r[2]) if r and nf(r[0]) == 'size' and r[1] == '<' else None
             rows[flag].append((m.group(1).decode() if m else None, div, thr, bool(re.search(rb'^%zu bytes \(', fmt)) == flag, num))
     letters = 'KMGTPE'
+    if rows[True] == 'delegates':
+        # "<n> bytes (<text of the plain form>)": the ladder is the plain form's by construction
+        ctx.ok(R, 'format_size|include_bytes=True|delegates', fsz, 'the include_bytes form wraps format_size(size, false)')
+        rows[True] = [(g[0], g[1], g[2], True, g[4]) for g in rows[False]]
     for flag in (True, False):
         got = rows[flag]
         ctx.check([g[0] for g in got] == list(letters), R, 'format_size|include_bytes=%s|suffixes' % flag, fsz, 'rows KB..EB in order', 'format_size rows are %s' % [g[0] for g in got])
